@@ -11,6 +11,12 @@
    React (verdict) and with the code model (to follow the sequence); probe connection + worker liveness + release of
    every connection and buffer at the end.
 5. I->S: drive_h2storm records seeded frame storms; TLC (Trace_H2Conn.tla) accepts iff the recording is a behaviour.
+6. Flow-control ledger (history-dependent reactions: the windows left behind by earlier WINDOW_UPDATEs, SETTINGS
+   changes and response bytes decide what WINDOW_UPDATE / SETTINGS(INITIAL_WINDOW_SIZE) must be answered): the same
+   spec with Focus = "win" - valid prefix drawn from the flow-control alphabet - is model-checked (P_C15_React over
+   every frame in every ledger state reached by <= 3..5 such steps), the deviation WinSaturate (an overflowing sum
+   silently clamped) must be refuted, and every distinct (frame, reaction, ledger class, freed bytes) of the
+   Focus = "win" cover tables + random walks is replayed on live connections with streams open / answering.
 """
 import json
 import os
@@ -26,6 +32,11 @@ SMALL = {"max_streams": 2, "rst": 2, "ping": 2, "settings": 2, "empty": 2, "wu0"
          "rst_life": 3, "rst_abusive": 2, "rst_emitted": 2, "hdr_list": 4096}
 # the replayer follows every frame with a marker PING: PING thresholds are out of reach there
 REPLAY = dict(SMALL, ping=100000)
+# flow-control sequences need several SETTINGS / stream-0 WINDOW_UPDATE frames in a row: those two floods out of reach
+WIN = dict(SMALL, ping=1000, settings=1000, wu0=1000)
+WIN_REPLAY = dict(WIN, ping=100000)
+# deviations that model a defect class the check must be able to see: TLC has to refute each of them (self-test)
+SELFTEST_DEVS = ["WinSaturate"]
 STORM_A = {"max_streams": 4, "rst": 4, "ping": 6, "settings": 4, "empty": 4, "wu0": 4, "cont": 3, "glitch": 4,
            "rst_life": 12, "rst_abusive": 8, "rst_emitted": 6, "hdr_list": 4096}
 STORM_B = {"max_streams": 4, "rst": 1000, "ping": 1000, "settings": 1000, "empty": 1000, "wu0": 1000, "cont": 1000,
@@ -52,6 +63,7 @@ CONSTANTS
   MaxValid = %(valid)d
   Deviations = %(dev)s
   Emit = "%(emit)s"
+  Focus = "%(focus)s"
 %(checks)s
 CHECK_DEADLOCK FALSE
 """
@@ -67,10 +79,10 @@ def tla_set(xs, quote=True):
     return "{" + ", ".join(('"%s"' % x) if quote else str(x) for x in xs) + "}"
 
 
-def write_cfg(wd, name, knobs, spec="Spec", depth=4, valid=0, dev=(), emit="off", checks=MC_CHECKS, sids=(1, 3, 5)):
+def write_cfg(wd, name, knobs, spec="Spec", depth=4, valid=0, dev=(), emit="off", checks=MC_CHECKS, sids=(1, 3, 5), focus="all"):
     path = os.path.join(wd, name)
     d = dict(knobs)
-    d.update(spec=spec, depth=depth, valid=valid, dev=tla_set(dev), emit=emit, checks=checks, sids=tla_set(sids, False))
+    d.update(spec=spec, depth=depth, valid=valid, dev=tla_set(dev), emit=emit, checks=checks, sids=tla_set(sids, False), focus=focus)
     with open(path, "w") as f:
         f.write(CFG % d)
     return path
@@ -79,7 +91,9 @@ def write_cfg(wd, name, knobs, spec="Spec", depth=4, valid=0, dev=(), emit="off"
 def row_key(row):
     f = row["f"]
     return (f["ty"], f["fl"], f["sid"], f["len"], f["pay"], row["code"]["k"], row["code"]["c"],
-            tuple(sorted((a["k"], a["c"]) for a in row["adm"])), row.get("blk"))
+            tuple(sorted((a["k"], a["c"]) for a in row["adm"])), row.get("blk"),
+            # the ledger situation the frame meets and the response bytes it is predicted to free
+            json.dumps(row.get("lg"), sort_keys=True), json.dumps(row.get("tx"), sort_keys=True))
 
 
 def step_of(row):
@@ -223,6 +237,18 @@ def run(tier, replay=None):
     rep.add_tlc(r)
     if r["violated"]:
         rep.violation("spec:" + r["violated"], "the specification itself violates %s" % r["violated"], r["out"])
+    # flow-control ledger: every state reached by a valid prefix over the flow-control alphabet, then every frame
+    rw = vlib.tlc("H2Conn", write_cfg(wd, "mc_win.cfg", WIN, spec="FairSpec", depth=1, valid=5 if thorough else 3, emit="mc", focus="win"),
+                  PID, workers=8, timeout=3000 if thorough else 900, xmx="8g" if thorough else "4g")
+    rep.add_tlc(rw)
+    if rw["violated"]:
+        rep.violation("spec:" + rw["violated"], "the specification itself violates %s (flow-control ledger)" % rw["violated"], rw["out"])
+    for d in SELFTEST_DEVS:
+        rd = vlib.tlc("H2Conn", write_cfg(wd, "mc_selftest.cfg", WIN, depth=1, valid=3, emit="mc", focus="win", dev=[d],
+                                          checks="INVARIANTS P_C15_React"), PID, workers=4, timeout=900)
+        if rd["violated"] != "P_C15_React":
+            raise vlib.ToolError("self-test: deviation %s is not refuted by TLC (%s)" % (d, rd["violated"]))
+        vlib.log("self-test deviation %s: TLC counterexample to P_C15_React as expected" % d)
     if thorough:
         # vacuity: every action must be taken somewhere (TLC -coverage runs out of memory on this module, so each
         # action gets a "never happens" property that has to be refuted)
@@ -297,6 +323,46 @@ def run(tier, replay=None):
     rep.cov["traces_validated_against_impl"] += summ["sequences"]
     rep.cov["evaluations"] += summ["steps"]
     rep.extra["replay"] = {k: summ[k] for k in ("sequences", "steps", "diverged", "inconclusive", "workers_released")}
+
+    # 4b. S->I, flow-control ledger: prefix states over the flow-control alphabet (streams open, answering, stalled;
+    # windows default / raised / near 2^31-1 / exactly 2^31-1 / zero / negative) x the frames the ledger decides
+    wcover, wwalks = [], []
+    gwc = vlib.tlc("H2Conn", write_cfg(wd, "gen_wcover.cfg", WIN, depth=8, valid=5 if thorough else 4, dev=devs, emit="cover", focus="win",
+                                       checks="INVARIANTS EmitState\nVIEW GenView"),
+                   PID, workers=4, timeout=1800, want_replay=True, replay_sink=wcover.append)
+    rep.add_tlc(gwc)
+    if gwc["violated"] or not wcover:
+        raise vlib.ToolError("flow-control cover generator failed: %s" % (gwc["violated"] or "no output"))
+    for valid in (3, 6):
+        gww = vlib.tlc("H2Conn", write_cfg(wd, "gen_wwalk.cfg", WIN, depth=10, valid=valid, dev=devs, emit="walk", focus="win",
+                                           checks="INVARIANTS EmitState"),
+                       PID, workers=2, timeout=600, simulate="num=%d" % (4000 if thorough else 400), depth=40,
+                       want_replay=True, replay_sink=wwalks.append)
+        if gww["violated"]:
+            raise vlib.ToolError("flow-control walk generator reported %s" % gww["violated"])
+    wseqs, wclasses, wpool = build_sequences(wcover, wwalks, 10 ** 9 if thorough else 3000, rnd)
+    wseq_file = os.path.join(wd, "sequences_win.ndjson")
+    write_sequences(wseq_file, WIN_REPLAY, wseqs)
+    wsumm = run_replay(rep, bins, wseq_file, 8, 2, "win")
+    if wsumm["not_run"] > 0 and not rep.violations:
+        raise vlib.ToolError("%d flow-control sequences were not run" % wsumm["not_run"])
+    if wsumm["inconclusive"] > max(5, len(wseqs) // 50):
+        raise vlib.ToolError("too many flow-control sequences too slow to judge (%d): machine overloaded" % wsumm["inconclusive"])
+    rep.cov["traces_validated_against_impl"] += wsumm["sequences"]
+    rep.cov["evaluations"] += wsumm["steps"]
+    rep.extra["replay_win"] = {k: wsumm[k] for k in ("sequences", "steps", "diverged", "inconclusive", "workers_released")}
+    rep.extra["win_prefix_states"] = len(wcover)
+    rep.extra["win_classes"] = wclasses
+    rep.extra["win_pairs_available"] = wpool
+    rep.extra["win_walks"] = len(wwalks)
+    ledger = {}
+    for o in wcover:
+        for row in o["table"]:
+            for t in row.get("lg") or []:
+                ledger[":".join(t)] = ledger.get(":".join(t), 0) + 1
+    rep.extra["ledger_classes_met"] = ledger
+    seqs = seqs + wseqs
+    classes += wclasses
     rep.extra["prefix_states"] = len(cover)
     rep.extra["state_frame_pairs_available"] = pool
     rep.extra["walks"] = len(walks)
@@ -326,10 +392,15 @@ def run(tier, replay=None):
     rep.cov["exhaustive"] = False
     rep.cov["rule"] = ("distinct_nontrivial = distinct (frame, predicted reaction, admissible set) combinations of the frame "
                        "tables of all %d states reachable by <= 3 valid frames, each replayed on a live connection at least "
-                       "twice; plus seeded (state, frame) pairs, TLC random walks and recorded storms" % len(cover))
+                       "twice; plus seeded (state, frame) pairs, TLC random walks and recorded storms; the flow-control "
+                       "generator adds the ledger class of the windows the frame meets and the response bytes it frees to the "
+                       "combination (%d states reached by valid prefixes over the flow-control alphabet)" % (len(cover), len(wcover)))
     rep.assumptions += [
-        "frames range over the 145-frame alphabet of spec/H2Conn.tla (10 frame types + PRIORITY_UPDATE + unknown type; flags; "
+        "frames range over the 156-frame alphabet of spec/H2Conn.tla (10 frame types + PRIORITY_UPDATE + unknown type; flags; "
         "stream ids 0/1/2/3/5; length zero/valid/wrong/oversized; payload classes) - a byte-level quirk no class exercises is out of reach",
+        "flow-control windows are computed with their true values, but increments and INITIAL_WINDOW_SIZE values come from a "
+        "few classes (1, 2^31-2-65535, 2^31-1-65535, 2^31-1; 0, 10, 65535, 65536, 2^31-1) and response bodies are 2 or 100 bytes, "
+        "so the connection window never limits a transfer",
         "the decoder leg enumerates header fields (length x type x flags x stream id x bytes available x padding class) and fills "
         "payloads with seeded random bytes: not all byte strings",
         "per-window flood verdicts are only kept from connections younger than the 1 s window (slow runs are retried, then skipped)",
